@@ -912,7 +912,18 @@ class ContentElement(TTMLElement):
             (child_element.desired_begin is None or child_element.desired_end is None or \
               child_element.desired_begin != child_element.desired_end):
 
-            self.children.append(child_element.model_element)
+            child_model_element = child_element.model_element
+
+            # ruby bases, texts and delimiters hold spans only: a line break in one of them is wrapped in an anonymous span
+
+            if isinstance(child_model_element, model.Br) and isinstance(self.model_element, (model.Rb, model.Rt, model.Rp)):
+              anonymous_span = model.Span(self.doc)
+              anonymous_span.set_space(self.model_element.get_space())
+              anonymous_span.set_lang(self.model_element.get_lang())
+              anonymous_span.push_child(child_model_element)
+              child_model_element = anonymous_span
+
+            self.children.append(child_model_element)
 
         # process tail text node
 
